@@ -42,8 +42,62 @@ def _key_texts(key):
     return out
 
 
+INTERNAL_ENUMERATIONS = ('stored_header_keys', VARIANT_STORE, 'segy_traceheader_template')
+
+
+def _request_params(fm, f, expr, facts, depth=0):
+    """parameters of ``f`` the expression is computed from"""
+    names = {n.id.split('@')[0] for n in ast.walk(expr) if isinstance(n, ast.Name)}
+    out = names & set(f.call_params())
+    if depth < 3:
+        for nm in names - out:
+            d = fm.resolve_def(nm, facts)
+            if d is not None:
+                try:
+                    e = ast.parse(d, mode='eval').body
+                except SyntaxError:
+                    continue
+                out |= _request_params(fm, f, e, facts, depth + 1)
+    return out
+
+
+def _supplied_by_caller(P, G, f, p, depth=0):
+    """can parameter ``p`` of ``f`` hold a field chosen outside the package?  Yes for an entry (no caller in the package,
+    or the function escapes as a value - `self.attributes = self.get_tracefield_1d`); through a package caller only if
+    that caller forwards one of its own parameters that is supplied from outside; a caller that enumerates the reader's
+    own tables (stored_header_keys, the variant store, the template) passes stored fields only."""
+    edges = [e for e in G.callers(f) if p in e.binding]
+    escapes = False
+    for g in P.functions.values():
+        for n in ast.walk(g.node):
+            if isinstance(n, ast.Attribute) and n.attr == f.name and isinstance(n.ctx, ast.Load):
+                # a load that is not the callee of a call
+                if not any(isinstance(c, ast.Call) and c.func is n for c in ast.walk(g.node)):
+                    escapes = True
+    if escapes or not edges or depth > 3:
+        return True
+    for e in edges:
+        bound = e.binding[p]
+        names = {n.id for n in ast.walk(bound) if isinstance(n, ast.Name)}
+        fwd = names & set(e.caller.call_params())
+        if fwd:
+            if any(_supplied_by_caller(P, G, e.caller, q, depth + 1) for q in fwd):
+                return True
+            continue
+        internal = False
+        for loop in ast.walk(e.caller.node):
+            if isinstance(loop, (ast.For, ast.comprehension)):
+                tgt = {n.id for n in ast.walk(loop.target) if isinstance(n, ast.Name)}
+                if tgt & names and any(k in U(loop.iter) for k in INTERNAL_ENUMERATIONS):
+                    internal = True
+        if not internal:
+            return True
+    return False
+
+
 def constant_fields(ctx, rule):
     P = ctx.P
+    G = ctx.G
     ctx.rule(rule, 'a caller-supplied trace field is looked up in the variant-header store only under a test that it is stored there')
     n = 0
     for cls in RF.reader_classes(P):
@@ -57,7 +111,10 @@ def constant_fields(ctx, rule):
                 paths = fm.paths_at(s)
                 if not paths:
                     continue
-                if not any(_param_derived(fm, f, s.slice, facts) for facts in paths):
+                req = set()
+                for facts in paths:
+                    req |= _request_params(fm, f, s.slice, facts)
+                if not any(_supplied_by_caller(P, G, f, q) for q in sorted(req)):
                     continue        # keys enumerated from the reader's own tables (stored_header_keys, the template)
                 n += 1
                 keys = _key_texts(s.slice)
